@@ -247,7 +247,10 @@ def campaign(c):
         others = ''.join('import %s;\n' % m for m in allmods if m != mod)
         refs = [sd['path'] for sd in lib.consts if sd['path'].split('::')[0] == mod][:1] + [f['path'] for f in lib.free_funcs if f['path'].split('::')[0] == mod][:1]
         for ref in refs:
-            for srcb in (('let x = %s;\n' % ref), (others + 'let x = %s;\n' % ref), ('let x = %s;\nimport %s;\n' % (ref, mod)), (others + '%s;\n' % ref)):
+            # ... also when the import follows on the SAME line, or opens the next line together with another statement
+            for srcb in (('let x = %s;\n' % ref), (others + 'let x = %s;\n' % ref), ('let x = %s;\nimport %s;\n' % (ref, mod)), (others + '%s;\n' % ref),
+                         ('let x = %s; import %s; let y = 1;\n' % (ref, mod)), (others + '%s; import %s; let y = 1;\n' % (ref, mod)), ('let y = 1; let x = %s;\nimport %s; let z = 2;\n' % (ref, mod)),
+                         ('let x = %s; import %s;' % (ref, mod))):
                 im, mo = progdiff.run_both(c, srcb.encode())
                 progdiff.compare(c, srcb.encode(), im, mo, 'unimported')
                 if not (im['outcome'][0] == 'failure' and im['outcome'][1] == 'Name'):
